@@ -64,35 +64,68 @@ func c04(c *core.Check) {
 			c.Verdict(okAll, "C04-R1", key, pos(c, es.Node), "operand type accepted by the VM case", why+": every execution of the instruction faults (recovered panic or runtime error)")
 		}
 	}
+	// the VM side must have been read: a table without operand assertions would make R1 pass vacuously
+	nAssertingCases := 0
+	for _, op := range vm.Order {
+		if len(vm.Cases[op].OperandAs) > 0 {
+			nAssertingCases++
+		}
+	}
+	c.Extra["vm_cases_asserting_operand"] = nAssertingCases
+	if nAssertingCases < 16 {
+		c.Undecided("C04-R1", "vm operand assertions", pos(c, vm.F.Decl), fmt.Sprintf("only %d opcode cases of vm.execute were found to assert the type of the instruction operand (16 confirmed by reading): the VM side of the comparison was not extracted", nAssertingCases))
+	} else {
+		c.Ok("C04-R1", "vm operand assertions", pos(c, vm.F.Decl), fmt.Sprintf("%d opcode cases assert the operand type", nAssertingCases))
+	}
 	// writeJumps
 	if wj := c.MustFn("C04-R1", "internal/runtime/compiler/codegen.(*codegen).writeJumps"); wj != nil {
-		n := 0
-		ast.Inspect(wj.Body, func(x ast.Node) bool {
-			as, ok := x.(*ast.AssignStmt)
-			if ok && len(as.Lhs) == 1 && strings.HasSuffix(core.PathOf(as.Lhs[0]), ".Operand") {
-				n++
-				t := operandType(wj.Info(), as.Rhs[0])
-				c.Verdict(t == "int", "C04-R1", "writeJumps resolved operand", pos(c, as), "int", "a resolved jump operand has Go type "+t+", the VM asserts int")
+		info := wj.Info()
+		g := wj.Graph()
+		isOperandField := func(e ast.Expr) bool {
+			sel, ok := core.Unparen(e).(*ast.SelectorExpr)
+			if !ok {
+				return false
 			}
-			return true
+			sl := info.Selections[sel]
+			return sl != nil && sl.Kind() == types.FieldVal && sel.Sel.Name == "Operand" && strings.HasSuffix(sl.Recv().String(), "code.Instr")
+		}
+		stores := g.Find(func(x ast.Node) bool {
+			as, ok := x.(*ast.AssignStmt)
+			return ok && len(as.Lhs) == 1 && len(as.Rhs) == 1 && isOperandField(as.Lhs[0])
 		})
-		if n == 0 {
+		for _, h := range stores {
+			as := h.N.(*ast.AssignStmt)
+			t := operandType(info, as.Rhs[0])
+			c.Verdict(t == "int", "C04-R1", "writeJumps resolved operand", pos(c, as), "int", "a resolved jump operand has Go type "+t+", the VM asserts int")
+		}
+		if len(stores) == 0 {
 			c.Fail("C04-R1", "writeJumps resolved operand", pos(c, wj.Decl), "writeJumps no longer stores the resolved offset: jumps go to label numbers")
 		}
-		// it must cover exactly the jump opcodes emitted with labels
-		var handled []string
-		ast.Inspect(wj.Body, func(x ast.Node) bool {
-			if cc, ok := x.(*ast.CaseClause); ok {
-				for _, e := range cc.List {
-					if op, ok := constOpcode(wj.Info(), e); ok {
-						handled = append(handled, op)
+		// it must reach the store for each of the jump opcodes emitted with labels, whatever
+		// form the opcode test has (switch on the opcode, ==/!= chain, early continue)
+		ef := graphFacts(g, func(e ast.Expr) (condFact, bool) {
+			b, ok := core.Unparen(e).(*ast.BinaryExpr)
+			if !ok || (b.Op != token.EQL && b.Op != token.NEQ) {
+				return condFact{}, false
+			}
+			for _, p := range [][2]ast.Expr{{b.X, b.Y}, {b.Y, b.X}} {
+				if op, ok := constOpcode(info, p[0]); ok {
+					if t := info.TypeOf(p[1]); t != nil && strings.HasSuffix(t.String(), "code.Opcode") {
+						return condFact{"opcode", op, b.Op == token.EQL}, true
 					}
 				}
 			}
-			return true
+			return condFact{}, false
 		})
+		tested := len(ef.edgesWith(func(f condFact) bool { return f.id == "opcode" })) > 0
 		for _, op := range []string{"Jmp", "Jm", "Jnm"} {
-			c.Verdict(has(handled, op), "C04-R1", "writeJumps handles "+op, pos(c, wj.Decl), "resolved", "jump opcode "+op+" is not resolved by writeJumps: its operand stays a label number")
+			op := op
+			_, reached := g.Search(core.Query{Goal: core.At(core.HitPoints(stores)...), AvoidEdge: ef.avoid(func(f condFact) bool { return !f.compatible("opcode", op) })})
+			if len(stores) > 0 && !tested {
+				c.Undecided("C04-R1", "writeJumps handles "+op, pos(c, wj.Decl), "no test of the instruction's opcode against a constant found in writeJumps: cannot decide which opcodes get their operand resolved")
+				continue
+			}
+			c.Verdict(reached, "C04-R1", "writeJumps handles "+op, pos(c, wj.Decl), "resolved", "jump opcode "+op+" is not resolved by writeJumps: its operand stays a label number")
 		}
 	}
 	c.Floor("C04-R1", 55)
@@ -237,16 +270,15 @@ func c04(c *core.Check) {
 		if es.Call == nil {
 			continue
 		}
-		opnd := strings.ReplaceAll(exprStr(es.Operand), " ", "")
-		key := fmt.Sprintf("emit#%d %s operand %s", i+1, strings.Join(es.Ops, "|"), opnd)
+		key := fmt.Sprintf("emit#%d %s table index in %s", i+1, strings.Join(es.Ops, "|"), es.F.Decl.Name.Name)
 		switch {
 		case has(es.Ops, "Str"):
-			prev := prevStmtOf(es.F, es.Call)
-			c.Verdict(opnd == "len(c.obj.Strings)-1" && prev != nil && isAppendTo(prev, "c.obj.Strings"), "C04-R3", key, pos(c, es.Call), "fresh string slot", "the Str operand is not the index of the string just appended")
+			ok, why := freshIndex(es.F, es.Operand, "Strings", 0)
+			c.Verdict(ok, "C04-R3", key, pos(c, es.Call), "fresh string slot ("+why+")", "the Str operand is not the index of the string just appended ("+why+"): the instruction pushes another string constant or indexes outside the table")
 		case has(es.Ops, "Match"), has(es.Ops, "Smatch"):
 			c.Verdict(operandFromField(es.F, es.Operand, "Index", "ast.PatternExpr"), "C04-R3", key, pos(c, es.Call), "PatternExpr.Index", "the regexp index operand does not come from PatternExpr.Index")
 		case has(es.Ops, "Mload"):
-			c.Verdict(opnd == "n.Symbol.Addr", "C04-R3", key, pos(c, es.Call), "Symbol.Addr", "the metric index operand does not come from the symbol's address")
+			c.Verdict(symbolAddrOfNode(es.F, es.Operand), "C04-R3", key, pos(c, es.Call), "Symbol.Addr", "the metric index operand does not come from the symbol's address")
 		case has(es.Ops, "Rsubst") && es.PrevPush != nil:
 			c.Verdict(operandFromField(es.F, es.PrevPush.Operand, "Index", "ast.PatternExpr"), "C04-R3", key, pos(c, es.Call), "pushed regexp index is PatternExpr.Index", "the regexp index pushed for rsubst does not come from PatternExpr.Index")
 		}
@@ -261,18 +293,14 @@ func c04(c *core.Check) {
 			continue
 		}
 		g := f.Graph()
-		labels := map[types.Object]core.Hit{}
-		for _, h := range g.Find(func(n ast.Node) bool {
-			as, ok := n.(*ast.AssignStmt)
-			if !ok || len(as.Rhs) != 1 || len(as.Lhs) != 1 {
-				return false
-			}
-			call, ok := as.Rhs[0].(*ast.CallExpr)
-			return ok && strings.HasSuffix(f.CalleeID(call), ".newLabel")
-		}) {
-			labels[identObj(f.Info(), h.N.(*ast.AssignStmt).Lhs[0])] = h
+		labels := labelDefs(f)
+		var lobjs []types.Object
+		for obj := range labels {
+			lobjs = append(lobjs, obj)
 		}
-		for obj, h := range labels {
+		sort.Slice(lobjs, func(i, j int) bool { return lobjs[i].Pos() < lobjs[j].Pos() })
+		for _, obj := range lobjs {
+			obj, h := obj, labels[obj]
 			sets := g.Calls(func(id string, call *ast.CallExpr) bool {
 				return strings.HasSuffix(id, ".setLabel") && identObj(f.Info(), call.Args[0]) == obj
 			})
@@ -309,14 +337,7 @@ func c04(c *core.Check) {
 		}
 		okLabel := false
 		if obj := identObj(es.F.Info(), es.Operand); obj != nil {
-			ast.Inspect(es.F.Body, func(n ast.Node) bool {
-				if as, ok := n.(*ast.AssignStmt); ok && len(as.Lhs) == 1 && len(as.Rhs) == 1 && identObj(es.F.Info(), as.Lhs[0]) == obj {
-					if call, ok := as.Rhs[0].(*ast.CallExpr); ok && strings.HasSuffix(es.F.CalleeID(call), ".newLabel") {
-						okLabel = true
-					}
-				}
-				return true
-			})
+			_, okLabel = labelDefs(es.F)[obj]
 		}
 		c.Verdict(okLabel, "C04-R4", fmt.Sprintf("jump emit#%d %s", i+1, strings.Join(es.Ops, "|")), pos(c, es.Call), "operand is a label", "a jump is emitted whose operand is not a label from newLabel(): writeJumps resolves it through the label table anyway")
 	}
@@ -331,36 +352,35 @@ func c04(c *core.Check) {
 			if !ok {
 				return true
 			}
-			bt := vm.F.Info().TypeOf(ix.X)
+			hf := funcContaining(c, ix) // execute, one of its literals, or a helper the case calls
+			if hf == nil {
+				return true
+			}
+			info := hf.Info()
+			bt := info.TypeOf(ix.X)
 			if bt == nil || bt.String() != "[]string" {
 				return true
 			}
-			if tv := vm.F.Info().Types[ix.Index]; tv.Value != nil {
+			if tv := info.Types[ix.Index]; tv.Value != nil {
 				return true // constant index: not a capture-group reference
 			}
-			if !strings.Contains(exprStr(ix.X), "matches") && !derivedFromMatches(vm, vc, ix.X) {
+			if !isCaptureSlice(hf, ix.X) {
 				return true
 			}
 			key := fmt.Sprintf("%s capture lookup [%s]", op, exprStr(ix.Index))
-			base := strings.ReplaceAll(exprStr(ix.X), " ", "")
-			idx := strings.ReplaceAll(exprStr(ix.Index), " ", "")
-			want1 := "len(" + base + ")<=" + idx
-			want2 := idx + ">=len(" + base + ")"
-			guarded := false
-			vm.inspectCase(vc, func(m ast.Node) bool {
-				is, ok := m.(*ast.IfStmt)
-				if !ok || is.End() > ix.Pos() {
-					return true
-				}
-				cond := strings.ReplaceAll(exprStr(is.Cond), " ", "")
-				if (cond == want1 || cond == want2) && len(is.Body.List) > 0 {
-					if _, isRet := is.Body.List[len(is.Body.List)-1].(*ast.ReturnStmt); isRet {
-						guarded = true
-					}
-				}
+			base, idx := canonExpr(hf, ix.X), canonExpr(hf, ix.Index)
+			g := hf.Graph()
+			ef := graphFacts(g, boundsAtom(hf, base, idx))
+			p, found := g.PointOf(ix)
+			if !found {
+				c.Undecided("C04-R5", key, pos(c, ix), "the capture-group lookup is not a node of the control-flow graph of "+hf.Key)
 				return true
-			})
-			if !guarded && op == "Strptime" {
+			}
+			inb := func(v string) func(condFact) bool {
+				return func(f condFact) bool { return f.id == "inbounds" && f.eq && f.val == v }
+			}
+			tr, unguarded := g.Search(core.Query{Goal: core.At(p), AvoidEdge: ef.avoid(inb("true"))})
+			if unguarded && op == "Strptime" {
 				c.Note("C04-R5", key, pos(c, ix), "unguarded, but only reached when the value under the layout is a Go int: the code generator emits strptime's arguments as string expressions (checked: no Push of an int directly precedes a Strptime emit)")
 				for _, es := range emits {
 					if has(es.Ops, "Strptime") && len(es.Ops) == 1 && es.PrevPush != nil && has(es.PrevPush.Ops, "Push") && es.PrevPush.OpndType == "int" {
@@ -369,7 +389,24 @@ func c04(c *core.Check) {
 				}
 				return true
 			}
-			c.Verdict(guarded, "C04-R5", key, pos(c, ix), "bounds-checked", "a capture-group slice is indexed without first comparing its length with the index: a pattern that was evaluated and did not match leaves a nil slice, so referencing its group panics instead of raising the checked 'not enough capture groups' error")
+			if unguarded {
+				c.Fail("C04-R5", key, pos(c, ix), "a capture-group slice is indexed without first comparing its length with the index: a pattern that was evaluated and did not match leaves a nil slice, so referencing its group panics instead of raising the checked 'not enough capture groups' error", g.Trail(tr)...)
+				return true
+			}
+			// the out-of-range side must raise the checked runtime error before the instruction ends
+			errs := core.HitPoints(g.CallsTo(vmErrorf))
+			silent := false
+			for _, start := range ef.edgesWith(inb("false")) {
+				start := start
+				if tr, quiet := pathAvoiding(g, &start, core.ExitPoints(normalExits(g)), errs); quiet {
+					silent = true
+					c.Fail("C04-R5", key+"|reported", pos(c, ix), "when the capture group does not exist the instruction ends without raising the runtime error: the reference silently yields nothing (the property lists 'a capture group of a pattern that did not match' as a checked error)", tr...)
+					break
+				}
+			}
+			if !silent {
+				c.Ok("C04-R5", key, pos(c, ix), "bounds-checked on every path, the out-of-range side raises the runtime error")
+			}
 			return true
 		})
 	}
@@ -383,77 +420,275 @@ func pick(cond bool, a, b string) string {
 	return b
 }
 
-// isAppendTo reports whether st is `<path> = append(<path>, …)`.
-func isAppendTo(st ast.Stmt, path string) bool {
+// objTable names the table of code.Object (Regexps, Strings, Metrics) that e
+// selects, with the canonical form of the selection; "" if e is no such field.
+func objTable(f *core.Func, e ast.Expr) (table, path string) {
+	sel, ok := core.Unparen(e).(*ast.SelectorExpr)
+	if !ok {
+		return "", ""
+	}
+	s := f.Info().Selections[sel]
+	if s == nil || s.Kind() != types.FieldVal || !strings.HasSuffix(s.Recv().String(), "code.Object") {
+		return "", ""
+	}
+	return sel.Sel.Name, canonExpr(f, sel)
+}
+
+// appendTo reports whether st is `<X.T> = append(<X.T>, e…)` for a table T of code.Object.
+func appendTo(f *core.Func, st ast.Stmt) (table, path string) {
 	as, ok := st.(*ast.AssignStmt)
-	if !ok || len(as.Lhs) != 1 || len(as.Rhs) != 1 || core.PathOf(as.Lhs[0]) != path {
-		return false
+	if !ok || len(as.Lhs) != 1 || len(as.Rhs) != 1 {
+		return "", ""
 	}
 	call, ok := core.Unparen(as.Rhs[0]).(*ast.CallExpr)
-	if !ok || len(call.Args) < 2 {
-		return false
+	if !ok || len(call.Args) < 2 || f.CalleeID(call) != "builtin.append" {
+		return "", ""
 	}
-	id, ok := call.Fun.(*ast.Ident)
-	return ok && id.Name == "append" && core.PathOf(call.Args[0]) == path
+	t1, p1 := objTable(f, as.Lhs[0])
+	t2, p2 := objTable(f, call.Args[0])
+	if t1 == "" || t1 != t2 || p1 != p2 {
+		return "", ""
+	}
+	return t1, p1
 }
 
-// prevStmtOf returns the statement preceding the statement containing call in its block.
-func prevStmtOf(f *core.Func, call *ast.CallExpr) ast.Stmt {
-	var res ast.Stmt
-	ast.Inspect(f.Body, func(n ast.Node) bool {
-		var list []ast.Stmt
-		switch b := n.(type) {
-		case *ast.BlockStmt:
-			list = b.List
-		case *ast.CaseClause:
-			list = b.Body
-		}
-		for i, st := range list {
-			if es, ok := st.(*ast.ExprStmt); ok && es.X == ast.Expr(call) && i > 0 {
-				res = list[i-1]
+// mentionsTable reports whether n refers to table T of code.Object.
+func mentionsTable(f *core.Func, n ast.Node, table string) bool {
+	found := false
+	ast.Inspect(n, func(x ast.Node) bool {
+		if e, ok := x.(ast.Expr); ok && !found {
+			if t, _ := objTable(f, e); t == table {
+				found = true
 			}
 		}
-		return true
+		return !found
 	})
-	return res
+	return found
 }
 
-// operandFromField reports whether e is X.<field> of the given receiver type, or a local variable whose only definition is such a selector.
+// lenOfTable reports whether e is len(<X.T>) and returns the canonical path of X.T.
+func lenOfTable(f *core.Func, e ast.Expr, table string) (string, bool) {
+	call, ok := core.Unparen(e).(*ast.CallExpr)
+	if !ok || len(call.Args) != 1 || f.CalleeID(call) != "builtin.len" {
+		return "", false
+	}
+	t, p := objTable(f, call.Args[0])
+	return p, t == table
+}
+
+// freshIndex decides whether e, evaluated where it stands in f, is the index
+// of an element appended to table T of code.Object at that moment:
+//   - `len(X.T) - 1` where the nearest earlier statement of the same statement
+//     list that touches T is `X.T = append(X.T, …)`;
+//   - `len(X.T)` where the nearest later statement that touches T is that append;
+//   - a local variable defined once by such an expression (judged at its definition);
+//   - a call of a module function all of whose returns yield such an index.
+func freshIndex(f *core.Func, e ast.Expr, table string, depth int) (bool, string) {
+	e = core.Unparen(e)
+	if depth > 4 {
+		return false, "definition chain too deep"
+	}
+	list, i := stmtContext(f, e)
+	if i < 0 {
+		return false, "expression not found in a statement list"
+	}
+	switch x := e.(type) {
+	case *ast.Ident:
+		if obj := f.Info().Uses[x]; obj != nil {
+			if d := onceDef(f, obj); d != nil {
+				return freshIndex(f, d, table, depth+1)
+			}
+		}
+		return false, "the variable " + x.Name + " is not defined once from a table length"
+	case *ast.BinaryExpr:
+		if n, isC := constInt(f.Info(), x.Y); x.Op == token.SUB && isC && n == 1 {
+			if p, ok := lenOfTable(f, x.X, table); ok {
+				for j := i - 1; j >= 0; j-- {
+					if mentionsTable(f, list[j], table) {
+						if t, ap := appendTo(f, list[j]); t == table && ap == p {
+							return true, "len-1 directly after the append"
+						}
+						return false, "the statement before it that touches " + table + " is not the append"
+					}
+				}
+				return false, "no append to " + table + " precedes len-1 in its block"
+			}
+		}
+	case *ast.CallExpr:
+		if p, ok := lenOfTable(f, x, table); ok {
+			for j := i + 1; j < len(list); j++ {
+				if mentionsTable(f, list[j], table) {
+					if t, ap := appendTo(f, list[j]); t == table && ap == p {
+						return true, "len directly before the append"
+					}
+					return false, "the statement after it that touches " + table + " is not the append"
+				}
+			}
+			return false, "no append to " + table + " follows len in its block"
+		}
+		if h := f.CalleeFunc(x); h != nil && h.Lit == nil {
+			n := 0
+			for _, ex := range h.Graph().Exits() {
+				if ex.Kind == "panic" {
+					continue
+				}
+				if ex.Ret == nil || len(ex.Ret.Results) != 1 {
+					return false, "helper " + h.Key + " does not return the index in a return statement"
+				}
+				n++
+				if ok, why := freshIndex(h, ex.Ret.Results[0], table, depth+1); !ok {
+					return false, "helper " + h.Key + ": " + why
+				}
+			}
+			if n > 0 {
+				return true, "helper " + h.Key + " appends and returns the index"
+			}
+		}
+	}
+	return false, "not derived from the length of " + table
+}
+
+// operandFromField reports whether e is X.<field> of the given receiver type, or a local variable defined once as such a selector.
 func operandFromField(f *core.Func, e ast.Expr, field, recvSuffix string) bool {
+	return fieldOfType(f, e, recvSuffix, field)
+}
+
+// symbolAddrOfNode reports whether e is <node>.Symbol.Addr: the Addr field of
+// a symbol.Symbol reached through the Symbol field of an ast node (locals in
+// between are resolved).
+func symbolAddrOfNode(f *core.Func, e ast.Expr) bool {
+	if !fieldOfType(f, e, "symbol.Symbol", "Addr") {
+		return false
+	}
+	sel := throughLocals(f, e).(*ast.SelectorExpr)
+	inner, ok := throughLocals(f, sel.X).(*ast.SelectorExpr)
+	if !ok || inner.Sel.Name != "Symbol" {
+		return false
+	}
+	s := f.Info().Selections[inner]
+	return s != nil && s.Kind() == types.FieldVal && strings.Contains(s.Recv().String(), "compiler/ast.")
+}
+
+// labelDefs lists the local variables of f defined from newLabel(), whatever
+// the form of the definition (`a := c.newLabel()`, `a, b := c.newLabel(),
+// c.newLabel()`, `var a = c.newLabel()`), with the CFG point of the definition.
+func labelDefs(f *core.Func) map[types.Object]core.Hit {
 	info := f.Info()
-	isSel := func(x ast.Expr) bool {
-		sel, ok := core.Unparen(x).(*ast.SelectorExpr)
-		if !ok || sel.Sel.Name != field {
+	isNew := func(e ast.Expr) bool {
+		call, ok := core.Unparen(e).(*ast.CallExpr)
+		return ok && f.CalleeID(call) == "internal/runtime/compiler/codegen.(*codegen).newLabel"
+	}
+	out := map[types.Object]core.Hit{}
+	for _, h := range f.Graph().Find(func(n ast.Node) bool {
+		switch n.(type) {
+		case *ast.AssignStmt, *ast.ValueSpec:
+			return true
+		}
+		return false
+	}) {
+		switch x := h.N.(type) {
+		case *ast.AssignStmt:
+			if len(x.Lhs) != len(x.Rhs) {
+				continue
+			}
+			for i, l := range x.Lhs {
+				if o := identObj(info, l); o != nil && isNew(x.Rhs[i]) {
+					out[o] = h
+				}
+			}
+		case *ast.ValueSpec:
+			if len(x.Names) != len(x.Values) {
+				continue
+			}
+			for i, nm := range x.Names {
+				if o := info.Defs[nm]; o != nil && isNew(x.Values[i]) {
+					out[o] = h
+				}
+			}
+		}
+	}
+	return out
+}
+
+// isCaptureSlice reports whether e denotes an element of the thread's
+// capture-group table (a map field of vm.thread indexed by the regexp number),
+// directly or through a local variable assigned from such an element
+// (`groups := t.matches[re]`, `groups, ok := t.matches[re]`).
+func isCaptureSlice(f *core.Func, e ast.Expr) bool {
+	info := f.Info()
+	isElem := func(x ast.Expr) bool {
+		ix, ok := core.Unparen(x).(*ast.IndexExpr)
+		if !ok {
+			return false
+		}
+		sel, ok := core.Unparen(ix.X).(*ast.SelectorExpr)
+		if !ok {
 			return false
 		}
 		s := info.Selections[sel]
-		return s != nil && strings.HasSuffix(s.Recv().String(), recvSuffix)
+		if s == nil || s.Kind() != types.FieldVal || !strings.HasSuffix(s.Recv().String(), "vm.thread") {
+			return false
+		}
+		_, isMap := s.Type().Underlying().(*types.Map)
+		return isMap
 	}
-	if isSel(e) {
+	if isElem(e) {
 		return true
 	}
 	obj := identObj(info, e)
 	if obj == nil {
 		return false
 	}
-	n, ok := 0, true
-	ast.Inspect(f.Body, func(x ast.Node) bool {
-		as, isA := x.(*ast.AssignStmt)
-		if !isA {
-			return true
-		}
-		for i, l := range as.Lhs {
-			if identObj(info, l) == obj && as.Tok == token.DEFINE && as.Pos() < e.Pos() && e.Pos()-as.Pos() < 400 {
-				// nearest preceding definition in the same clause
-				n++
-				if len(as.Rhs) != len(as.Lhs) || !isSel(as.Rhs[i]) {
-					ok = false
+	found := false
+	var body ast.Node = f.Body
+	if f.Decl != nil && f.Decl.Body != nil {
+		body = f.Decl.Body
+	}
+	ast.Inspect(body, func(n ast.Node) bool {
+		if as, ok := n.(*ast.AssignStmt); ok {
+			for i, l := range as.Lhs {
+				if identObj(info, l) == obj && len(as.Rhs) >= 1 && isElem(as.Rhs[min(i, len(as.Rhs)-1)]) {
+					found = true
 				}
 			}
 		}
 		return true
 	})
-	return n > 0 && ok
+	return found
+}
+
+// boundsAtom reads comparisons between len(base) and idx (both in canonical
+// form): the condFact "inbounds" is true when idx < len(base) is established.
+// `len(b) < k` / `k > len(b)` establish nothing about k == len(b) and yield no condFact.
+func boundsAtom(f *core.Func, base, idx string) atomFn {
+	isLen := func(x ast.Expr) bool {
+		call, ok := core.Unparen(x).(*ast.CallExpr)
+		return ok && len(call.Args) == 1 && f.CalleeID(call) == "builtin.len" && canonExpr(f, call.Args[0]) == base
+	}
+	isIdx := func(x ast.Expr) bool { return canonExpr(f, x) == idx }
+	return func(e ast.Expr) (condFact, bool) {
+		b, ok := core.Unparen(e).(*ast.BinaryExpr)
+		if !ok {
+			return condFact{}, false
+		}
+		switch {
+		case isLen(b.X) && isIdx(b.Y):
+			switch b.Op {
+			case token.LEQ: // len <= idx: out of range
+				return condFact{"inbounds", "false", true}, true
+			case token.GTR: // len > idx
+				return condFact{"inbounds", "true", true}, true
+			}
+		case isIdx(b.X) && isLen(b.Y):
+			switch b.Op {
+			case token.GEQ: // idx >= len
+				return condFact{"inbounds", "false", true}, true
+			case token.LSS: // idx < len
+				return condFact{"inbounds", "true", true}, true
+			}
+		}
+		return condFact{}, false
+	}
 }
 
 // enclosingCaseName names the case clause (type or token) enclosing n, for stable keys.
@@ -536,34 +771,9 @@ func builtinSignatures(c *core.Check) map[string][]string {
 	return out
 }
 
-// derivedFromMatches reports whether e is a local variable defined from an index of the thread's matches map within the case.
-func derivedFromMatches(vm *vmTable, vc *vmCase, e ast.Expr) bool {
-	obj := identObj(vm.F.Info(), e)
-	if obj == nil {
-		return false
-	}
-	found := false
-	vm.inspectCase(vc, func(n ast.Node) bool {
-		if as, ok := n.(*ast.AssignStmt); ok {
-			for i, l := range as.Lhs {
-				if identObj(vm.F.Info(), l) == obj && len(as.Rhs) >= 1 {
-					r := as.Rhs[min(i, len(as.Rhs)-1)]
-					if strings.Contains(exprStr(r), "matches[") {
-						found = true
-					}
-				}
-			}
-		}
-		return true
-	})
-	return found
-}
-
 // tableSlots checks that every assignment to PatternExpr.Index / a metric
 // symbol's Addr is the index of an element appended at that moment.
 func tableSlots(c *core.Check, rule string) {
-	n3 := 0
-	_ = n3
 	for _, k := range c.Prog.SortedFuncKeys() {
 		f := c.Prog.Funcs[k]
 		if f.Lit != nil || c.Prog.IsTestSupport(f) {
@@ -571,19 +781,12 @@ func tableSlots(c *core.Check, rule string) {
 		}
 		info := f.Info()
 		ast.Inspect(f.Body, func(n ast.Node) bool {
-			var list []ast.Stmt
-			switch b := n.(type) {
-			case *ast.BlockStmt:
-				list = b.List
-			case *ast.CaseClause:
-				list = b.Body
+			as, ok := n.(*ast.AssignStmt)
+			if !ok || len(as.Lhs) != len(as.Rhs) {
+				return true
 			}
-			for i, st := range list {
-				as, ok := st.(*ast.AssignStmt)
-				if !ok || len(as.Lhs) != 1 || len(as.Rhs) != 1 {
-					continue
-				}
-				sel, ok := core.Unparen(as.Lhs[0]).(*ast.SelectorExpr)
+			for i, l := range as.Lhs {
+				sel, ok := core.Unparen(l).(*ast.SelectorExpr)
 				if !ok {
 					continue
 				}
@@ -592,19 +795,17 @@ func tableSlots(c *core.Check, rule string) {
 					continue
 				}
 				recvT := s.Recv().String()
-				rhs := strings.ReplaceAll(exprStr(as.Rhs[0]), " ", "")
+				rhs := strings.ReplaceAll(exprStr(as.Rhs[i]), " ", "")
 				switch {
 				case sel.Sel.Name == "Index" && strings.HasSuffix(recvT, "ast.PatternExpr"):
-					n3++
 					c.Analysed(f)
-					prevOK := i > 0 && isAppendTo(list[i-1], "c.obj.Regexps")
-					c.Verdict(rhs == "len(c.obj.Regexps)-1" && prevOK, rule, f.Key+"|PatternExpr.Index", pos(c, as), "fresh slot", "a pattern's regexp index is not the index of a regexp appended for it at that moment ("+rhs+"): it may be out of range or shared with another pattern, whose capture groups it then overwrites")
+					ok, why := freshIndex(f, as.Rhs[i], "Regexps", 0)
+					c.Verdict(ok, rule, f.Key+"|PatternExpr.Index", pos(c, as), "fresh slot ("+why+")", "a pattern's regexp index is not the index of a regexp appended for it at that moment ("+rhs+": "+why+"): it may be out of range or shared with another pattern, whose capture groups it then overwrites")
 				case sel.Sel.Name == "Addr" && strings.HasSuffix(recvT, "symbol.Symbol"):
-					n3++
 					c.Analysed(f)
 					if core.Rel(f.Pkg.PkgPath) == "internal/runtime/compiler/codegen" {
-						nextOK := i+1 < len(list) && isAppendTo(list[i+1], "c.obj.Metrics")
-						c.Verdict(rhs == "len(c.obj.Metrics)" && nextOK, rule, f.Key+"|Symbol.Addr", pos(c, as), "index of the metric appended next", "a metric symbol's address is not the index at which its metric is appended ("+rhs+")")
+						ok, why := freshIndex(f, as.Rhs[i], "Metrics", 0)
+						c.Verdict(ok, rule, f.Key+"|Symbol.Addr", pos(c, as), "index of the metric appended at that moment ("+why+")", "a metric symbol's address is not the index at which its metric is appended ("+rhs+": "+why+")")
 					} else {
 						c.Ok(rule, f.Key+"|Symbol.Addr", pos(c, as), "capture-group number assigned by the checker; the VM bounds-checks it (R5)")
 					}
